@@ -3,7 +3,7 @@
 //! REAL f64 operations. Axioms not covered here (ax_powf, ax_score_below_max, exactness of products) stay assumed.
 
 #[cfg(kani)]
-mod proofs {
+mod float_axioms {
     /// ax_conv: integers convert to finite non-negative values; only 0 converts to zero
     #[kani::proof]
     fn k_to_f64_nonneg_zero() {
@@ -62,3 +62,5 @@ mod proofs {
         assert!(0.0 < f64::MAX && 1.0 >= 0.0 && 1.0 != 0.0);
     }
 }
+mod stats_real;
+mod policy_real;
